@@ -324,9 +324,14 @@ VARIANTS = {'open': 2, 'openLow': 2, 'openHold1': 2, 'operational': 4, 'notifica
 class Remote:
     """Bytes of every message class, built from a mirrored neighbor (real OPEN through the real encoder)."""
 
-    def __init__(self, peer_hold: int = 180, families: str | None = None) -> None:
+    def __init__(self, peer_hold: int = 180, families: str | None = None, extended: bool = True) -> None:
         _, pn = sessions.make_config(local_as=65001, peer_as=65000, local_address='127.0.0.1', peer_address='127.0.0.1', **({'families': families} if families else {}))
         pn.session.router_id = RouterID(ID_HIGH)
+        if not extended:
+            # the peer's OPEN does not carry Extended Message: whatever we announce, the maximum stays 4096 (RFC 8654 3)
+            from exabgp.util.enumeration import TriState
+
+            pn.capability.extended_message = TriState.FALSE
         pn.hold_time = type(pn.hold_time)(peer_hold)
         self.pn = pn
         self.neg = Negotiated.make_negotiated(pn, Direction.OUT)
@@ -512,6 +517,8 @@ DEFAULT_CFG = {
     'api_fsm': False,  # api fsm: every FSM.change goes to the API process
     'refresh': True,  # route-refresh capability configured (outgoing ROUTE-REFRESH allowed)
     'extended': False,  # extended-message capability (False: maximum message size stays 4096)
+    'adj_rib_in': True,  # the neighbor keeps an Adj-RIB-In (False, with no API consumer: read_message hands back a placeholder for every UPDATE)
+    'peer_extended': True,  # the peer's OPEN carries Extended Message (False with `extended`: only we announce it, the maximum stays 4096)
     'local_as_auto': False,  # `local-as auto`: our AS mirrors the peer's, the peer's OPEN is read before ours is written (outside M-Session)
     'peer_as_auto': False,  # `peer-as auto`: any AS in the peer's OPEN is accepted (outside M-Session)
 }
@@ -549,7 +556,7 @@ class SessionRig:
         self.api: list[tuple[float, str]] = []
         self.task: asyncio.Task | None = None
         self.crashed = False
-        self.remote = Remote(self.cfg['peer_hold'])
+        self.remote = Remote(self.cfg['peer_hold'], extended=bool(self.cfg['peer_extended']))
         self.remotes: dict[int, Remote] = {}  # connection id -> a remote speaker with other capabilities (run_flap_scenario: the families of its OPEN)
         self._env_saved: dict = {}
         self._build_peer()
@@ -596,6 +603,7 @@ class SessionRig:
                 n.session.local_as = ASN(0)
             if self.cfg['peer_as_auto']:
                 n.session.peer_as = ASN(0)
+        n.adj_rib_in = bool(self.cfg['adj_rib_in'])
         self.neighbor = n
         self.nroutes = 0
         routes = [self._route() for _ in range(int(self.cfg['routes']))]
@@ -1187,6 +1195,12 @@ def systematic_scripts() -> list[tuple[list[list], dict, str]]:
         for ev in alphabet(c):
             if ev[0] != 'recv' or ev[2] in ('keepalive', 'update', 'notification', 'refresh', 'badLength', 'kaLen20'):
                 out.append((prefix + [ev] + TAIL, {'routes': 1, 'extended': True}, f'extended/{stage}/{ev[0]}{"-" + ev[2] if ev[0] == "recv" else ""}'))
+    # only ONE side announces Extended Message: nothing was negotiated, a header above 4096 is a Bad Message Length
+    for stage in ('openconfirm', 'established-fresh', 'established'):
+        prefix, c = STAGES[stage]
+        for v in range(VARIANTS['tooLong']):
+            for sides in ({'extended': True, 'peer_extended': False}, {'extended': False, 'peer_extended': True}):
+                out.append((prefix + [['recv', c, 'tooLong'] + ([v] if v else [])] + TAIL, dict(sides, routes=1), f'extended-one-side/{stage}/tooLong#{v}'))
     for v in range(1, VARIANTS['open']):
         for k in ('open', 'openLow'):
             base = [['start'], ['connectOk'], ['recv', 1, k, v]]
